@@ -47,7 +47,20 @@ pub open spec fn same_expression(e: Expression, r: Expression) -> bool { erase(s
 pub uninterp spec fn has_comments(k: NodeKey) -> bool;
 // ---- function definitions ----
 #[verifier::external_type_specification] #[verifier::external_body] pub struct ExFunctionName(FunctionName);
-pub uninterp spec fn fname_id(n: FunctionName) -> int;               // the dotted names and the method name of `function a.b:c`, as tokens
+// the dotted names and the method name of `function a.b:c`
+pub uninterp spec fn fname_names(n: FunctionName) -> Punctuated<TokenReference>;
+pub uninterp spec fn fname_method(n: FunctionName) -> Option<(TokenReference, TokenReference)>;
+pub open spec fn fname_id(n: FunctionName) -> (Seq<int>, Option<int>) {
+    (name_sig(fname_names(n)), if fname_method(n) is Some { Some(tok_of(fname_method(n)->Some_0.1)) } else { None })
+}
+pub assume_specification [FunctionName::names] (n: &FunctionName) -> (r: &Punctuated<TokenReference>) ensures *r == fname_names(*n);
+pub assume_specification [FunctionName::method_colon] (n: &FunctionName) -> (r: Option<&TokenReference>) ensures (r is Some) == (fname_method(*n) is Some), r is Some ==> *r->Some_0 == fname_method(*n)->Some_0.0;
+pub assume_specification [FunctionName::method_name] (n: &FunctionName) -> (r: Option<&TokenReference>) ensures (r is Some) == (fname_method(*n) is Some), r is Some ==> *r->Some_0 == fname_method(*n)->Some_0.1;
+pub assume_specification [FunctionName::new] (names: Punctuated<TokenReference>) -> (r: FunctionName) ensures fname_names(r) == names, fname_method(r) is None;
+pub assume_specification [FunctionName::with_method] (n: FunctionName, m: Option<(TokenReference, TokenReference)>) -> (r: FunctionName) ensures fname_names(r) == fname_names(n), fname_method(r) == m;
+pub assume_specification<T> [Punctuated::<T>::into_pairs] (p: Punctuated<T>) -> (r: impl Iterator<Item = Pair<T>>)
+    ensures it_rest(&r) == ppairs(p);
+pub assume_specification<T: Clone> [<Punctuated<T> as Clone>::clone] (p: &Punctuated<T>) -> (r: Punctuated<T>) ensures r == *p;
 pub uninterp spec fn fname_trail(n: FunctionName) -> Seq<Token>;     // the trailing trivia of its last token
 pub assume_specification [LocalFunction::new] (name: TokenReference) -> (r: LocalFunction) ensures n_lfun_name(&r) == name;
 pub assume_specification [FunctionDeclaration::new] (name: FunctionName) -> (r: FunctionDeclaration) ensures n_fdecl_name(&r) == name;
@@ -195,7 +208,22 @@ impl UpdateTrailingTrivia for FunctionBody {
 }
 """, module="formatters::functions"),
         Fn(CTX, "create_function_definition_trivia", mode="stub", proved_in="ctx", contract="ensures token_type_of(r) == definition_space(ctx.config),"),
-        Fn(FUN, "format_function_name", mode="stub", contract="ensures fname_id(r) == fname_id(*function_name),", note="loop over the dotted names (format_token_reference on each) and the method name"),
+        Fn(FUN, "format_function_name", contract="""
+    ensures fname_id(r) == fname_id(*function_name), //# C02.function_name_same
+""", edits=[
+            Hole("for pair in function_name.names().to_owned().into_pairs() {", "let mut vx_it = peekable(function_name.names().to_owned().into_pairs());\n    let ghost mut k: int = 0;\n    while let Some(pair) = vx_it.next() {", kind="desugar", why="for over an owning iterator: written as its definition, through the Peekable wrapper"),
+            Loop("while let Some(pair) = vx_it.next()", """
+        invariant
+            0 <= k <= ppairs(fname_names(*function_name)).len(),
+            pk_rest(&vx_it).len() == ppairs(fname_names(*function_name)).len() - k,
+            forall|j: int| 0 <= j < pk_rest(&vx_it).len() ==> #[trigger] pk_rest(&vx_it)[j] == ppairs(fname_names(*function_name))[k + j],
+            ppairs(formatted_names).len() == k,
+            forall|i: int| 0 <= i < k ==> tok_of(pair_value(#[trigger] ppairs(formatted_names)[i])) == tok_of(pair_value(ppairs(fname_names(*function_name))[i])), //# C02.function_name_loop
+        ensures k == ppairs(fname_names(*function_name)).len(),
+        decreases pk_rest(&vx_it).len(),
+""", step="proof { k = k + 1; }"),
+            Hole("FunctionName::new(formatted_names).with_method(formatted_method)", "proof { assert(name_sig(formatted_names) =~= name_sig(fname_names(*function_name))); }\n    FunctionName::new(formatted_names).with_method(formatted_method)", kind="ghost-name", why="proof hint: the two name sequences are equal item by item"),
+        ]),
         Fn(FUN, "format_function_body", mode="stub", proved_in="collapse", contract="ensures census(&n_fb_block(&r)) == census(&n_fb_block(function_body)),"),
         Fn(FUN, "format_local_function", contract="""
     ensures tok_of(n_lfun_name(&r)) == tok_of(n_lfun_name(local_function)), //# C02.local_function_same
@@ -280,6 +308,8 @@ impl UpdateTrailingTrivia for FunctionBody {
 
 LABELS = {
     "C01.header_keyword_closed": dict(props=["C01", "C02"], text="format_while_block / format_else_if: a line comment behind the `while` / `elseif` keyword is always followed by a line break (the header goes multiline), so the condition is never printed inside the comment"),
+    "C02.function_name_same": dict(props=["C02"], text="format_function_name: the same dotted names in the same order and the same method name (`function a.b:c`)"),
+    "C02.function_name_loop": dict(props=["C02"], text="format_function_name loop invariant: the names pushed so far are the input's, in order"),
     "C02.local_function_same": dict(props=["C02"], text="format_local_function: same name, same statement census in the body"),
     "C02.function_declaration_same": dict(props=["C02"], text="format_function_declaration: same dotted / method name, same statement census in the body"),
     "C02.anonymous_function_same": dict(props=["C02"], text="format_anonymous_function: same statement census in the body"),
